@@ -205,6 +205,47 @@ Judge(adds, np, pageids, adjusted, og, tocs) ==
        ELSE "ok"
 
 -----------------------------------------------------------------------------
+(* Declarative layer, the same formulas written out for the forest t1 > t2 > ... > tn ("any depth"): a  *)
+(* chain record r gives per level k the observed item that carries the level's title as columns          *)
+(* id, parent, first, last, next, prev, aid, dest, dkok, title, found, destpn (page number of dest), so   *)
+(* every clause is a linear pass and chains of 10^5 levels can be judged.                                 *)
+(* Level k is titled "t<k>" (a CJK character + <k> on every third level); its page is the zero page on   *)
+(* every level but the last if r.zero, else ((k + leaf_page) mod np) + 1.                                 *)
+
+RECURSIVE DecDigits(_)
+DecDigits(k) == IF k < 10 THEN <<48 + k>> ELSE Append(DecDigits(k \div 10), 48 + (k % 10))
+
+ChainTitle(k) == (IF k % 3 = 0 THEN <<31456>> ELSE <<116>>) \o DecDigits(k)
+
+ChainPage(r, k) == IF r.zero /\ k < r.n THEN 0 ELSE ((k + r.leaf_page) % r.np) + 1
+
+ChainNewIds(r) == ({r.root} \cup {r.id[k] : k \in 1..r.n}) \cup ({r.aid[k] : k \in 1..r.n} \ {0})
+
+ChainTocIs(r, t) ==
+    /\ t.ok /\ t.n = r.n
+    /\ \A k \in 1..r.n : t.lv[k] = k /\ t.tt[k] = ChainTitle(k) /\ t.pg[k] = r.destpn[k]
+
+ChainJudge(r) ==
+    LET n == r.n
+        \* the page the destination of level k must name: its own, or (after adjust_zero_pages) its child's
+        want(k) == IF r.adjust /\ ChainPage(r, k) = 0 THEN (IF k < n THEN r.destpn[k + 1] ELSE 0) ELSE ChainPage(r, k)
+    IN IF \E k \in 1..n : r.found[k] = 0 \/ ~TitleDenotes(r.title[k], ChainTitle(k)) THEN "carries.title"
+       ELSE IF \/ r.root = 0 \/ ~r.rootrec.present \/ r.changed # <<>>
+               \/ Cardinality(ChainNewIds(r)) # 1 + n + Cardinality({k \in 1..n : r.aid[k] # 0}) THEN "fresh.overlap"
+       ELSE IF r.max_id < r.root \/ \E k \in 1..n : r.max_id < r.id[k] \/ r.max_id < r.aid[k] THEN "fresh.maxid"
+       ELSE IF \E j \in 1..Len(r.later) : r.later[j] \in ChainNewIds(r) THEN "fresh.reserved"
+       ELSE IF r.parent[1] # r.root \/ \E k \in 2..n : r.parent[k] # r.id[k - 1] THEN "links.parent"
+       ELSE IF \E k \in 1..n : r.next[k] # 0 \/ r.prev[k] # 0 THEN "links.siblings"
+       ELSE IF r.rootrec.first # r.id[1] \/ r.rootrec.last # r.id[1] THEN "links.root-ends"
+       ELSE IF \/ r.first[n] # 0 \/ r.last[n] # 0
+               \/ \E k \in 1..(n - 1) : r.first[k] # r.id[k + 1] \/ r.last[k] # r.id[k + 1] THEN "links.first-last"
+       ELSE IF \E k \in 1..n : \/ r.dkok[k] # 1 \/ r.destpn[k] \notin 1..r.np
+                                \/ r.pageids[r.destpn[k]] # r.dest[k] \/ r.destpn[k] # want(k) THEN "carries.dest"
+       ELSE IF ~ChainTocIs(r, r.tocs[1]) THEN "readback.built"
+       ELSE IF \E i \in 2..Len(r.tocs) : ~ChainTocIs(r, r.tocs[i]) THEN "readback.reloaded"
+       ELSE "ok"
+
+-----------------------------------------------------------------------------
 (* Impl-shaped layer.  State of the pending forest as Document holds it:                         *)
 (*   [maxb, bms : Seq(id), tbl : Seq([title, page, children])]   (bookmark_table keyed 1..maxb)  *)
 
@@ -337,6 +378,34 @@ ImplOg(b, base, pageids, later) ==
                       last |-> obj(order[j]).last, next |-> obj(order[j]).next, prev |-> obj(order[j]).prev,
                       title |-> obj(order[j]).title, dk |-> "A:GoTo", aid |-> obj(order[j]).aid,
                       dest |-> P(obj(obj(order[j]).aid).dest)]]]
+
+\* Stack frames the three walkers need "as they are" (one recursive call per level):
+\* recursive_fix_pages and outline_child recurse once per non-empty children list, get_outlines once per
+\* /First (setup_outline_page_ids and the drop of the nested Outline value nest equally deep).
+RECURSIVE ForestFrames(_, _)
+ForestFrames(tbl, list) ==
+    IF list = <<>> THEN 0
+    ELSE 1 + Max({ForestFrames(tbl, tbl[list[i]].children) : i \in 1..Len(list)})
+
+RECURSIVE OutlineFrames(_, _, _)
+OutlineFrames(objs, id, fuel) ==          \* along the sibling chain starting at id
+    IF id = 0 \/ id \notin DOMAIN objs \/ fuel = 0 THEN 0
+    ELSE Max({1 + OutlineFrames(objs, objs[id].first, fuel - 1), OutlineFrames(objs, objs[id].next, fuel - 1)})
+
+\* build_outline's counter is a plain machine integer: past `limit` it wraps to 0.  The result of ImplBuild
+\* with every object number taken modulo limit + 1 (of two objects that land on one number the later one stays).
+WrapBuild(b, limit) ==
+    LET W(i) == i % (limit + 1)
+        src(j) == Max({i \in DOMAIN b.objs : W(i) = j})
+        re(o) == [o EXCEPT !.parent = W(@), !.first = W(@), !.last = W(@), !.next = W(@), !.prev = W(@), !.aid = W(@)]
+    IN [root |-> W(b.root), maxid |-> W(b.maxid),
+        objs |-> [j \in {W(i) : i \in DOMAIN b.objs} |-> re(b.objs[src(j)])]]
+
+\* which named-destination tables get_outlines cannot read when it does not follow references
+\* (and takes a PDF 1.1 /Dests dictionary for a name-tree node)
+DestSpellingsAll == {"none", "tree-direct", "kids-ref", "names-ref", "d-ref", "value-array-ref", "old-direct",
+                     "old-names-key", "old-refs"}
+DestsUnreadableAsIs == {"kids-ref", "names-ref", "d-ref", "old-names-key"}
 
 \* the whole pipeline as a function of the add sequence (used by the trace validator to measure drift)
 ImplForest(adds) == FoldLeft(LAMBDA s, a : ImplAdd(s, a.title, a.page, a.parent), EmptyBm, adds)
